@@ -94,6 +94,15 @@ def gen_cases(ctx):
         inst = gen.gen_instance(rng, None, max_jobs=3, max_machines=3, max_ops=10)
         yield {"kind": "animation_real", "instance": inst, "seed": rng.randrange(2**31)}
     for i in range(ctx.scale(6, 300)):
+        # the animation is produced from a solver (possibly a randomised one) instead of a history
+        yield {"kind": "animation_solver", "length": rng.choice([6, 12, 25]), "seed": rng.randrange(2**31),
+               "rule": ["random", "most_work_remaining", "random"][i % 3],
+               "chooser": ["random", "first"][i % 2], "instance": {"cls": "animation"}}
+    for i in range(ctx.scale(6, 300)):
+        # an environment renders episode after episode
+        yield {"kind": "animation_env_episodes", "length": rng.choice([5, 9, 14]),
+               "seed": rng.randrange(2**31), "instance": {"cls": "animation"}}
+    for i in range(ctx.scale(6, 300)):
         yield {"kind": "animation_two_step", "length": rng.choice([5, 12, 30]),
                "entry": ["function", "creator"][i % 2], "seed": rng.randrange(2**31),
                "instance": {"cls": "animation"}}
@@ -523,6 +532,99 @@ def run_two_step(ctx, case):
     ctx.note_case(case, True, fingerprint=f"two:{n}:{case['entry']}:{case['seed']}")
 
 
+def run_animation_solver(ctx, case):
+    """create_gantt_chart_gif(instance, solver=...): the frames show ONE run of the solver, frame
+    by frame (each frame adds one operation to the previous one), and the axis limit handed to
+    every frame is that run's makespan."""
+    import imageio
+    from job_shop_lib.dispatching.rules import DispatchingRuleSolver
+    from job_shop_lib.visualization import create_gantt_chart_gif
+    rng = random.Random(case["seed"])
+    n = case["length"]
+    inst = long_instance(n, rng)
+    instance = gen.build(inst)
+    r0 = Run(inst).r
+    shown = []
+
+    def plot(schedule, makespan=None, available_operations=None, current_time=None):
+        k = len(shown) + 1
+        shown.append((sorted((so.operation.operation_id, so.start_time, so.machine_id)
+                             for lst in schedule.schedule for so in lst), makespan))
+        return stamped_figure(k)
+
+    td = tempfile.mkdtemp(prefix="jsv-c20s-")
+    try:
+        path = os.path.join(td, "solver.gif")
+        random.seed(case["seed"] % 1000)
+        create_gantt_chart_gif(instance, path, solver=DispatchingRuleSolver(case["rule"], case["chooser"]),
+                               plot_function=plot, fps=10)
+        ctx.count("animation_runs"); ctx.count("solver_driven_animations")
+        if len(shown) != n:
+            ctx.violation("c20_plot_function_call_count", {"calls": len(shown), "history": n, "entry": "solver"})
+            return
+        for k in range(1, n + 1):
+            ctx.count("plot_calls_checked")
+            ops_now = shown[k - 1][0]
+            prev = shown[k - 2][0] if k > 1 else []
+            if len(ops_now) != k or any(x not in ops_now for x in prev):
+                ctx.violation("c20_frame_k_does_not_show_first_k_operations",
+                              {"k": k, "entry": "solver", "got": ops_now[:8], "previous_frame": prev[:8]})
+                return
+        final_mk = max(s + r0.op_dur[o] for o, s, _ in shown[-1][0])
+        limits = {mk for _, mk in shown if mk is not None}
+        if limits - {final_mk}:
+            ctx.violation("c20_frame_axis_limit_not_final_makespan",
+                          {"entry": "solver", "limits_passed": sorted(limits), "makespan_of_the_shown_run": final_mk})
+        frames = imageio.mimread(path, memtest=False)
+        check_frames(ctx, frames, n, "solver", "gif")
+    finally:
+        shutil.rmtree(td, ignore_errors=True)
+    ctx.note_case(case, n >= 10, fingerprint=f"solver:{n}:{case['rule']}:{case['seed']}")
+
+
+def run_animation_env_episodes(ctx, case):
+    """An environment with render_mode='save_gif': every episode's rendering shows that episode."""
+    import imageio
+    from job_shop_lib.dispatching import DispatcherObserverConfig
+    from job_shop_lib.graphs import build_agent_task_graph
+    from job_shop_lib.reinforcement_learning import SingleJobShopGraphEnv
+    rng = random.Random(case["seed"])
+    n = case["length"]
+    inst = long_instance(n, rng)
+    instance = gen.build(inst)
+    td = tempfile.mkdtemp(prefix="jsv-c20e-")
+    try:
+        gif_path = os.path.join(td, "env.gif")
+        env = SingleJobShopGraphEnv(
+            build_agent_task_graph(instance), [DispatcherObserverConfig("is_ready")],
+            render_mode="save_gif", ready_operations_filter=None,
+            render_config={"gif_config": {"gif_path": gif_path, "fps": 10}})
+        for ep in range(3):
+            env.reset()
+            run = Run(inst, None, dispatcher=env.dispatcher, instance=instance)
+            while not run.done():
+                o, m = run.choose(rng, rng.choice(["random_ready", "round_robin", "one_job_first"]))
+                env.step((run.r.op_job[o], m))
+                run.r.apply(o, m)
+            shown = []
+
+            def plot(schedule, makespan=None, available_operations=None, current_time=None):
+                k = len(shown) + 1
+                shown.append((sorted((so.operation.operation_id, so.start_time, so.machine_id)
+                                     for lst in schedule.schedule for so in lst), makespan))
+                return stamped_figure(k)
+            env.gantt_chart_creator.partial_gantt_chart_plotter = plot
+            env.render()
+            ctx.count("animation_runs"); ctx.count("env_episode_renderings")
+            check_shown(ctx, run.r, [o for o, _ in run.r.history], shown, n, f"env episode {ep + 1}")
+            frames = imageio.mimread(gif_path, memtest=False)
+            check_frames(ctx, frames, n, f"env episode {ep + 1}", "gif")
+    finally:
+        shutil.rmtree(td, ignore_errors=True)
+    ctx.note_case(case, True, fingerprint=f"env-episodes:{n}:{case['seed']}")
+
+
 def run_case(ctx, case):
     {"chart": run_chart, "animation": run_animation, "animation_real": run_animation_real,
-     "animation_two_step": run_two_step}[case["kind"]](ctx, case)
+     "animation_two_step": run_two_step, "animation_solver": run_animation_solver,
+     "animation_env_episodes": run_animation_env_episodes}[case["kind"]](ctx, case)
